@@ -2,15 +2,19 @@
 """Import the deliverables of a sub-agent round (/tmp/sw2/out/<Cxx>/{a,b}/) into
 /verif/seeded/<Cxx>-<n>/ with the next free numbers; the demonstration's target name in demo_cmd is
 rewritten to the convention lib/confirm_seeded.py uses (tests|examples/demo_<Cxx>_<n>.rs).
-usage: import_seeded.py <out-dir> [Cxx ...]"""
+usage: import_seeded.py [--round N] <out-dir> [Cxx ...]"""
 import json, os, re, shutil, sys
 
 SEEDED = '/verif/seeded'
 
 
 def main():
-    out = sys.argv[1]
-    props = sys.argv[2:] or sorted(os.listdir(out))
+    args = sys.argv[1:]
+    rnd = 2
+    if '--round' in args:
+        i = args.index('--round'); rnd = int(args[i + 1]); del args[i:i + 2]
+    out = args[0]
+    props = args[1:] or sorted(os.listdir(out))
     for pid in props:
         for sub in sorted(os.listdir(os.path.join(out, pid))):
             d = os.path.join(out, pid, sub)
@@ -30,7 +34,7 @@ def main():
             shutil.copy(os.path.join(d, 'demo.rs'), dst)
             meta = json.load(open(os.path.join(d, 'meta.json')))
             meta['id'] = sid
-            meta['round'] = 2
+            meta['round'] = rnd
             cmd = meta.get('demo_cmd', '')
             cmd = re.sub(r'demo_%s_\w+' % pid, f'demo_{pid}_{n}', cmd)
             meta['demo_cmd'] = cmd
